@@ -34,9 +34,9 @@ func (prop) Rule() string {
 
 type args struct {
 	Types []string `json:"types"`
-	N     int      `json:"n"`     // random objects per type
-	Exh   bool     `json:"exh"`   // include the exhaustive length sweeps
-	Off   int      `json:"off"`   // stream offset for random cases
+	N     int      `json:"n"`   // random objects per type
+	Exh   bool     `json:"exh"` // include the exhaustive length sweeps
+	Off   int      `json:"off"` // stream offset for random cases
 }
 
 var allTypes = []string{"transaction", "field", "user", "account", "filenamewithinfo", "infofork", "flatfile",
@@ -297,7 +297,7 @@ func name(r *core.Rand, n int) []byte {
 	return b
 }
 
-func arr2(v int) (a [2]byte)  { binary.BigEndian.PutUint16(a[:], uint16(v)); return }
+func arr2(v int) (a [2]byte)    { binary.BigEndian.PutUint16(a[:], uint16(v)); return }
 func arr4(v uint32) (a [4]byte) { binary.BigEndian.PutUint32(a[:], v); return }
 
 func generate(t string, r *core.Rand, n int, exh bool) []obj {
@@ -589,7 +589,7 @@ func genTran(r *core.Rand, lens []int) obj {
 		return ht
 	}
 	return obj{
-		desc: fmt.Sprintf("Transaction type=%d flags=%d reply=%d id=%08x err=%08x fieldLens=%v", t.Type, t.Flags, t.IsReply, t.ID, t.Err, lens),
+		desc:   fmt.Sprintf("Transaction type=%d flags=%d reply=%d id=%08x err=%08x fieldLens=%v", t.Type, t.Flags, t.IsReply, t.ID, t.Err, lens),
 		lclass: fmt.Sprintf("nf%s/max%s", lenClass(len(lens)), lenClass(maxl)), ref: ref, nontriv: true,
 		mk: func() io.Reader { ht := mkReal(); return &ht },
 		decode: func() string {
@@ -839,7 +839,7 @@ func genFileHeader(r *core.Rand, lens []int) (obj, bool) {
 	}
 	return obj{
 		desc: fmt.Sprintf("FileHeader isDir=%v itemLens=%v", isDir, lens), lclass: fmt.Sprintf("n%d/%s", min(len(lens), 3), lenClass(mx)), ref: ref, nontriv: true,
-		mk:   func() io.Reader { fh := hotline.NewFileHeader(p, isDir); return &fh },
+		mk: func() io.Reader { fh := hotline.NewFileHeader(p, isDir); return &fh },
 		decode: func() string {
 			// the path part must decode with the real FilePath decoder
 			var fp hotline.FilePath
@@ -1016,7 +1016,7 @@ func genNewsCat(r *core.Rand, l int, isCat bool) obj {
 	ref := c.Encode()
 	return obj{
 		desc: fmt.Sprintf("NewsCategoryListData15 type=%d count=%d nameLen=%d", c.Type, c.Count, l), lclass: fmt.Sprintf("t%d/%s", c.Type, lenClass(l)), ref: ref, nontriv: true,
-		mk:   func() io.Reader { x := hc; return &x },
+		mk: func() io.Reader { x := hc; return &x },
 	}
 }
 
